@@ -51,7 +51,7 @@ def in_indexed_repeat(source: str, ref_index: int) -> bool:
     """is the ref_index-th ${...} of source inside an indexed-repeat( ... ) call?"""
     ms = list(model.REF_RE.finditer(source))
     pos = ms[ref_index].start()
-    for m in re.finditer(r"indexed-repeat\(", source):
+    for m in re.finditer(r"indexed-repeat\s*\(", source):
         depth, i = 1, m.end()
         while i < len(source) and depth:
             depth += source[i] == "("
@@ -68,7 +68,7 @@ def indexed_repeat_arg(source: str, ref_index: int):
     ms = list(model.REF_RE.finditer(source))
     pos = ms[ref_index].start()
     best = None
-    for m in re.finditer(r"indexed-repeat\(", source):
+    for m in re.finditer(r"indexed-repeat\s*\(", source):
         depth, i, arg, quote, found = 1, m.end(), 0, None, None
         while i < len(source) and depth:
             ch = source[i]
@@ -92,7 +92,7 @@ def indexed_repeat_arg(source: str, ref_index: int):
 
 def in_instance_predicate(source: str, ref_index: int) -> bool:
     """is the ref inside [ ... ] of an expression that contains instance( ?"""
-    if "instance(" not in source:
+    if not re.search(r"instance\s*\(", source):      # XPath allows white space between a function name and its parenthesis
         return False
     ms = list(model.REF_RE.finditer(source))
     pos = ms[ref_index].start()
